@@ -6,8 +6,8 @@
    [exact <lemma>].  [runs T m s b b' v] (Proofs/ZfRunP.v) reads: on ANY reader state whose unconsumed input
    is s ++ t with T t, parenthesis state b, the parser action m returns v, consumes exactly s, ends in
    parenthesis state b' and has advanced the line counter by the number of LF octets in s.
-   Not covered by the renderer (docs/C23.md): the "::" and embedded IPv4 forms of IPv6 text, a raw CR inside an
-   unquoted token.  The WKS bit map uses the implementation's bit order (finding 3). *)
+   Not covered by the renderer (docs/C23.md): the embedded-IPv4 form of IPv6 text, a raw CR inside an unquoted
+   token.  The WKS bit map uses the implementation's bit order (finding 3). *)
 From QV Require Import Base.ListX Model.NameWire Spec.NameRepr Model.ZfStd Model.ZfReader Model.ZfParser Model.ZfRecOnly
   Spec.ZfValidS Spec.ZfRenderS Proofs.ZfReaderP Proofs.ZfFieldsP Proofs.ZfRunP Proofs.ZfTokP Proofs.ZfNameRP Proofs.ZfSymP
   Proofs.ZfAddrP Proofs.ZfRecRP Proofs.ZfLineRP.
@@ -53,8 +53,8 @@ Proof. exact class_roundtrip. Qed.
 Theorem c23_type : forall sc v, sym_ok spec_types sc v = true -> type_from_str (render_type sc v) = inl v.
 Proof. exact type_roundtrip. Qed.
 
-(* A and AAAA text through the models of Ipv4Addr::from_str / Ipv6Addr::from_str; the AAAA renderer writes the
-   eight-group form only (dropped leading zeros and letter case per group) *)
+(* A and AAAA text through the models of Ipv4Addr::from_str / Ipv6Addr::from_str; the AAAA renderer writes eight
+   groups (dropped leading zeros and letter case per group), any one run of zero groups possibly as "::" *)
 Theorem c23_ipv4 : forall a b c d, ip4_ok a b c d = true -> ipv4_from_str (render_ip4 a b c d) = Some [a; b; c; d].
 Proof. exact ipv4_roundtrip. Qed.
 Theorem c23_ipv6 : forall c gs, ip6_ok c gs = true -> ipv6_from_str (render_ip6 c gs) = Some (flat_map sbe16 gs).
